@@ -32,11 +32,17 @@ func (d *Driver) stallIn(inst int, a, b time.Duration) time.Duration {
 // stopInvokedBefore: a stop call (or crash) of the object was invoked at or before t.
 func (d *Driver) stopInvokedBefore(inst, gen int, t time.Duration) bool {
 	for _, a := range d.h.Apis {
-		if a.Inst == inst && a.Gen == gen && (a.Kind == AStop || a.Kind == AStopCtx) && a.TInv <= t {
+		if a.Inst == inst && (a.Gen == gen || gen < 0) && (a.Kind == AStop || a.Kind == AStopCtx) && a.TInv <= t {
 			return true
 		}
 	}
 	return false
+}
+
+// expectsOnDemote: the object had an OnDemote callback registered when its claim fell at step.
+func (d *Driver) expectsOnDemote(inst, gen int, step uint64) bool {
+	o := d.obj(inst, gen)
+	return o != nil && !o.in.cfg.NoCallbacks && o.demoteReg && o.demoteRegStep < step
 }
 
 func (d *Driver) demoteCbAfter(inst, gen int, step uint64) *CbEvt {
@@ -144,7 +150,7 @@ func (d *Driver) judgeC03as(prop string) {
 						}
 						d.h.violate(prop, "still-leader-after-next-heartbeat/record-"+cause+"/"+errClass(a1.SrvErr),
 							fmt.Sprintf("i%d.%d: its record was %s at %v; its next heartbeat attempt (#%d) got the verdict %q at %v, but it stopped claiming leadership %s", t.Inst, t.Gen, cause, tL, a1.ID, errStr(a1.SrvErr), a1.TRet, when), deadline, a1.SRet)
-					} else if cb := d.demoteCbAfter(t.Inst, t.Gen, t.SEnd); !in.cfg.NoCallbacks && (cb == nil || cb.T > deadline+slack+d.stallIn(t.Inst, deadline, cb.T)) {
+					} else if cb := d.demoteCbAfter(t.Inst, t.Gen, t.SEnd); d.expectsOnDemote(t.Inst, t.Gen, t.SEnd) && (cb == nil || cb.T > deadline+slack+d.stallIn(t.Inst, deadline, cb.T)) {
 						d.h.violate(prop, "ondemote-late-after-record-loss/record-"+cause, fmt.Sprintf("i%d.%d lost its record at %v, claim cleared at %v, OnDemote not run by %v", t.Inst, t.Gen, tL, fallT, deadline), deadline, a1.SRet)
 					}
 					if a1.TRet > tL+p.H+2*T+d.stallIn(t.Inst, tL, a1.TRet)+time.Millisecond {
@@ -187,7 +193,7 @@ func (d *Driver) judgeC03as(prop string) {
 					}
 					d.h.violate(prop, "still-leader-after-third-failed-heartbeat/"+faultClass(op),
 						fmt.Sprintf("i%d.%d: three consecutive refreshes failed (third, #%d, completed at %v) but it stopped claiming leadership %s", t.Inst, t.Gen, op.ID, f3, when), f3, op.SRet)
-				} else if cb := d.demoteCbAfter(t.Inst, t.Gen, t.SEnd); !in.cfg.NoCallbacks && (cb == nil || cb.T > f3+slack+d.stallIn(t.Inst, f3, cb.T)) {
+				} else if cb := d.demoteCbAfter(t.Inst, t.Gen, t.SEnd); d.expectsOnDemote(t.Inst, t.Gen, t.SEnd) && (cb == nil || cb.T > f3+slack+d.stallIn(t.Inst, f3, cb.T)) {
 					d.h.violate(prop, "ondemote-late-after-third-failed-heartbeat", fmt.Sprintf("i%d.%d OnDemote not run by %v", t.Inst, t.Gen, f3), f3, op.SRet)
 				}
 				// S: start of the last successful refresh; for a term without one, the start of the term
@@ -374,7 +380,7 @@ func (d *Driver) judgeC12() {
 				if byHealth {
 					if due == nil {
 						d.h.violate("C12", fmt.Sprintf("health-demotion-below-threshold/count=%d/m=%d", count, m), fmt.Sprintf("i%d.%d demoted by the health mechanism at %v after %d consecutive unhealthy results of this term (threshold %d)", in.idx, o.gen, c.T, count, m), c.T, c.Step)
-					} else if !in.cfg.NoCallbacks {
+					} else if d.expectsOnDemote(in.idx, o.gen, c.Step) {
 						if cb := d.demoteCbAfter(in.idx, o.gen, c.Step); cb == nil || cb.T > c.T+d.stallIn(in.idx, c.T, cb.T) {
 							d.h.violate("C12", "health-demotion-without-ondemote", fmt.Sprintf("i%d.%d demoted by the health mechanism at %v but OnDemote did not run", in.idx, o.gen, c.T), c.T, c.Step)
 						}
@@ -621,7 +627,7 @@ func (d *Driver) judgeC04() {
 			if t := termAt(a.Inst, a.Gen, a.SInv); t != nil && a.LeaderAtInv {
 				if t.Fall == nil || t.SEnd > a.SRet {
 					d.h.violate("C04", "validate-or-demote-false-but-still-leader", fmt.Sprintf("i%d ValidateTokenOrDemote returned false at %v but the term that began at %v continued", a.Inst, a.TRet, t.Start), a.TRet, a.SRet)
-				} else if !in.cfg.NoCallbacks {
+				} else if d.expectsOnDemote(a.Inst, a.Gen, t.SEnd) {
 					cb := d.demoteCbAfter(a.Inst, a.Gen, t.SEnd)
 					// by the next quiescent point after the return: same virtual instant, stalls allowed for
 					if (cb == nil || cb.T > a.TRet+d.stallIn(a.Inst, t.End, cb.T)) && !d.stopFailed(t.Fall, o) && !stopStack(t.EndStack) {
@@ -734,7 +740,27 @@ func (d *Driver) judgeC11() {
 				}
 				d.judgedInc("C11")
 				if t.Fall != nil && t.End < n.T+G {
-					continue // lost leadership earlier for another reason (judged by (a) if it was the grace mechanism)
+					// lost leadership earlier for another reason (judged by (a) if it was the grace
+					// mechanism). "... and it still leads": if the same object leads again when the grace
+					// period ends - it lost the record and re-acquired during the outage - that term ends then
+					var t2 *Term
+					for _, x := range myTerms {
+						if x.Start > t.End && x.Start < n.T+G && (x.Fall == nil || x.End >= n.T+G) {
+							t2 = x
+						}
+					}
+					if t2 == nil {
+						continue
+					}
+					slack := d.stallIn(in.idx, n.T, n.T+G+time.Second)
+					if t2.Fall == nil || t2.End > n.T+G+slack {
+						when := "never"
+						if t2.Fall != nil {
+							when = fmt.Sprintf("at %v (%s)", t2.End, t2.EndStack)
+						}
+						d.h.violate("C11", "no-demotion-at-grace-expiry/leadership-lost-and-regained-during-outage", fmt.Sprintf("i%d.%d: disconnect notification at %v while leading, no reconnect; it lost leadership at %v (%s), led again from %v and still led when the grace period ended at %v, but was demoted %s", in.idx, o.gen, n.T, t.End, t.EndStack, t2.Start, n.T+G, when), n.T+G, 0)
+					}
+					continue
 				}
 				slack := d.stallIn(in.idx, n.T, n.T+G+time.Second)
 				if t.Fall == nil || t.End > n.T+G+slack {
@@ -749,7 +775,7 @@ func (d *Driver) judgeC11() {
 						}
 					}
 					d.h.violate("C11", fmt.Sprintf("no-demotion-at-grace-expiry/closed-notification=%v", closed), fmt.Sprintf("i%d.%d led from %v, disconnect notification at %v, no reconnect: must be demoted at %v (grace %v) but was demoted %s", in.idx, o.gen, t.Start, n.T, n.T+G, G, when), n.T+G, 0)
-				} else if !in.cfg.NoCallbacks {
+				} else if d.expectsOnDemote(in.idx, o.gen, t.SEnd) {
 					cb := d.demoteCbAfter(in.idx, o.gen, t.SEnd)
 					if cb == nil || cb.T > t.End+d.stallIn(in.idx, t.End, t.End+time.Second) {
 						d.h.violate("C11", "grace-demotion-without-ondemote", fmt.Sprintf("i%d.%d demoted at grace expiry %v but OnDemote did not run at that moment", in.idx, o.gen, t.End), t.End, t.SEnd)
@@ -953,6 +979,9 @@ func (d *Driver) judgeC10prompt() {
 			if s >= end || s+3*p.H+slack >= d.endAt {
 				return
 			}
+			if d.stopInvokedBefore(y.idx, -1, s+3*p.H+slack+time.Millisecond) {
+				return // y itself is shut down inside the window
+			}
 			d.judgedInc("C10")
 			ok := false
 			for _, c := range claims {
@@ -991,6 +1020,17 @@ func (d *Driver) judgeC10prompt() {
 			continue
 		}
 		if stableFrom >= 0 && iv.v.P.ID != owner {
+			// the owner itself was shut down before the change: leadership legitimately moves on
+			stopped := false
+			for _, in := range d.insts {
+				if in.cfg.ID == owner && d.stopInvokedBefore(in.idx, -1, iv.a) {
+					stopped = true
+				}
+			}
+			if stopped {
+				stableFrom, owner = -1, ""
+				continue
+			}
 			d.h.violate("C10", "owner-change-after-highest-priority-leads", fmt.Sprintf("record owner changed from %s to %s at %v although %s (stored prio >= %d) led since %v", owner, iv.v.P.ID, iv.a, owner, maxTk, stableFrom), iv.a, 0)
 			break
 		}
